@@ -944,6 +944,12 @@ func TestC42(t *testing.T) {
 			}
 		}
 
+		// names hashed by ssh-keygen -H must be matched by the package
+		if keygen != "" && kgCalls < kgBudget && rapid.IntRange(0, 11).Draw(rt, "keygenH") == 0 {
+			kgCalls++
+			c42KeygenHash(rt, c, g, univ, dir, keygen)
+		}
+
 		// Line / Normalize / HashHostname
 		if rapid.IntRange(0, 3).Draw(rt, "lineHelper") == 0 {
 			c42LineHelper(rt, c, g, univ, dir, keygen, &kgCalls, kgBudget)
@@ -1087,6 +1093,84 @@ func c42LineHelper(rt *rapid.T, c *ev.Collector, g *c42Gen, univ []string, dir, 
 			}
 			c.Class("keygen:helper-lookup")
 		}
+	}
+}
+
+// c42KeygenHash writes plain names, lets OpenSSH hash them (ssh-keygen -H) and
+// requires the package to match the hashed lines exactly as the model does.
+func c42KeygenHash(rt *rapid.T, c *ev.Collector, g *c42Gen, univ []string, dir, keygen string) {
+	p := filepath.Join(dir, "khhash")
+	os.Remove(p + ".old")
+	type ent struct {
+		hp  ref.HostPort
+		key string
+	}
+	var ents []ent
+	var sb strings.Builder
+	for li := 0; li < rapid.IntRange(1, 3).Draw(rt, "hlines"); li++ {
+		key := rapid.SampledFrom(c42HostKeys).Draw(rt, "hkey")
+		pk := g.pool.pub(key)
+		var names []string
+		for i := 0; i < rapid.IntRange(1, 3).Draw(rt, "hnames"); i++ {
+			hp := ref.HostPort{Host: rapid.SampledFrom(univ).Draw(rt, "hhost"), Port: rapid.SampledFrom(c42Ports).Draw(rt, "hport")}
+			names = append(names, hp.Name())
+			ents = append(ents, ent{hp, key})
+		}
+		sb.WriteString(strings.Join(names, ",") + " " + pk.Type() + " " + base64.StdEncoding.EncodeToString(pk.Marshal()) + "\n")
+	}
+	if err := os.WriteFile(p, []byte(sb.String()), 0o644); err != nil {
+		rt.Fatalf("VF-INCONCLUSIVE: %v", err)
+	}
+	cmd := exec.Command(keygen, "-H", "-f", p)
+	cmd.Env = []string{"HOME=" + dir, "PATH=/usr/bin:/bin", "LC_ALL=C"}
+	if out, err := cmd.CombinedOutput(); err != nil {
+		c.Assumption("ssh-keygen -H misbehaved once: " + err.Error() + ": " + string(out))
+		return
+	}
+	text, err := os.ReadFile(p)
+	if err != nil {
+		rt.Fatalf("VF-INCONCLUSIVE: %v", err)
+	}
+	lines, err := ref.ParseKnownHosts(p, text)
+	if err != nil || len(lines) != len(ents) {
+		c.Assumption(fmt.Sprintf("ssh-keygen -H output not understood (%v, %d lines for %d names)", err, len(lines), len(ents)))
+		return
+	}
+	for _, l := range lines {
+		if !ref.IsHashed(l.Names) {
+			c.Assumption("ssh-keygen -H left a plain name")
+			return
+		}
+	}
+	cb, err := knownhosts.New(p)
+	if err != nil {
+		rt.Fatalf("VF-VIOLATION: property=C42 knownhosts.New rejects a file hashed by ssh-keygen -H: %v\n%s", err, text)
+	}
+	f := &c42Files{paths: []string{p}, texts: []string{string(text)}, lines: lines}
+	remote := &net.TCPAddr{IP: net.IPv4(10, 9, 9, 9), Port: 22}
+	for _, e := range ents {
+		found := false
+		for _, l := range lines {
+			found = found || ref.MatchSplit(l.Names, e.hp)
+		}
+		if !found {
+			c.Inconclusive("a name hashed by ssh-keygen -H is not matched by the reference model: " + e.hp.Name())
+			rt.Fatalf("VF-INCONCLUSIVE: reference hash model disagrees with ssh-keygen -H for %s", e.hp.Name())
+		}
+		for _, k := range []string{e.key, "ed25519-d"} {
+			if _, err := c42CheckPlain(cb, f, net.JoinHostPort(e.hp.Host, e.hp.Port), remote, e.hp, g.pool.pub(k)); err != nil {
+				rt.Fatalf("VF-VIOLATION: property=C42 file hashed by ssh-keygen -H, lookup %s: %v\n%s", e.hp.Name(), err, text)
+			}
+		}
+		other := ref.HostPort{Host: e.hp.Host + "x", Port: e.hp.Port}
+		if _, err := c42CheckPlain(cb, f, net.JoinHostPort(other.Host, other.Port), remote, other, g.pool.pub(e.key)); err != nil {
+			rt.Fatalf("VF-VIOLATION: property=C42 file hashed by ssh-keygen -H, lookup %s: %v\n%s", other.Name(), err, text)
+		}
+		form := "port22"
+		if e.hp.Port != "22" {
+			form = "bracketed-port"
+		}
+		c.Case(true, "keygen-H|"+form, "keygen:hashed-by-ssh-keygen-H")
 	}
 }
 
